@@ -245,7 +245,8 @@ static void run_c06(void)
                 if (rt->pool_es[p] == 0 && p != u->pool)
                     u->migrate_to = p;
         }
-        u->yield_to_child = !u->is_task && u->yields_before == 0 && plan_n(3) == 0;
+        /* (ABT_thread_yield_to needs the deprecated remove operation of the target's pool) */
+        u->yield_to_child = !u->is_task && u->yields_before == 0 && plan_n(3) == 0 && rt->pool_kind[u->pool] != 3;
         if (u->gate == G_EVENTUAL) {
             ABT_eventual_memory ei = ABT_EVENTUAL_INITIALIZER;
             u->evm = ei;
